@@ -12,16 +12,31 @@ def run(ck):
     # the input class 'key or trigger name containing NUL / empty trigger name' (the wire format is NUL separated) is explored separately
     for i in range(2):
         jobs.append(dict(exe=asan, args=["--worlds", int(6 * k), "--ops", 200, "--odd", "--seed", sa.subseed(ck, 50 + i)], label="odd%d" % i, timeout=14400))
-    sa.run_jobs(ck, jobs, sets=("worlds",))
-    ck.counters["ops_total"] = sum(ck.counters.get(x, 0) for x in ("stores", "fetches", "rises", "clears"))
+    # concurrent nodes: application threads of 1..3 nodes (shared cache_over_ip object, shared L1, per-thread connection) against
+    # multi-threaded servers; TSan for the server/L1 paths, history checks (stale read after a completed invalidation, foreign or
+    # torn value, full linearizability of short histories) for the behaviour
+    tsan = ck.build("tsan", ["cache_conc"])["cache_conc"]
+    asanc = ck.build("asan", ["cache_conc"])["cache_conc"]
+    for i in range(6):
+        exe = tsan if i % 3 != 2 else asanc
+        jobs.append(dict(exe=exe, args=["--mode", "netshort", "--histories", int(150 * k), "--yield", [0, 30, 120][i % 3], "--seed", sa.subseed(ck, 70 + i)], label="netshort%d" % i, timeout=14400))
+    for i in range(4):
+        exe = tsan if i % 2 == 0 else asanc
+        jobs.append(dict(exe=exe, args=["--mode", "netlong", "--histories", int(3 * k), "--ops", 300, "--threads", 6, "--yield", [0, 60][i % 2], "--seed", sa.subseed(ck, 80 + i)], label="netlong%d" % i, timeout=14400))
+    sa.run_jobs(ck, jobs, sets=("worlds", "shapes"))
+    ck.counters["ops_total"] = sum(ck.counters.get(x, 0) for x in ("stores", "fetches", "rises", "clears", "ops"))
+    ck.inconclusive += ck.counters.get("linearizability_inconclusive", 0)
     ck.assumptions += [
-        "one driver thread issues a total order of operations over 2..3 clients, so 'current at the time of the fetch' is the state of a sequential model; the servers and clients are the real tcp_cache_service / tcp_cache_factory objects on loopback",
+        "sequential part: one driver thread issues a total order of operations over 2..3 clients, so 'current at the time of the fetch' is the state of a sequential model; the servers and clients are the real tcp_cache_service / tcp_cache_factory objects on loopback",
+        "concurrent part: 'current at the time of the fetch' is decided on real-time order at the client boundary (a hit must not return a value whose invalidation completed before the fetch began; short histories must be linearizable)",
+        "a cache server that restarts and begins its generation counter again is outside the quantifier and not driven",
         "remove() is a documented no-op for the network cache and is not driven",
         "keys and trigger names containing NUL and empty trigger names are a separate input class (known finding: the wire format is NUL separated)",
     ]
     ck.finish("exploration",
               "worlds of 1..2 cache servers and 2..3 clients (each with or without an L1 of limit 0..4) on loopback under a virtual clock: random total orders of store/fetch/rise/clear/stats over 2..12 keys (binary keys, empty and "
               ">64 KiB values with NULs, 1000-element trigger lists, expired-on-arrival deadlines); every fetch on every node must equal the sequential model (value, trigger set, deadline) - in particular after another node's "
-              "store/rise/clear while the old value sits in this node's L1; the dump hook on each server's backing cache checks that every key lives on exactly one server, always the same. non-trivial = distinct world shapes",
+              "store/rise/clear while the old value sits in this node's L1; the dump hook on each server's backing cache checks that every key lives on exactly one server, always the same. Concurrent part: 2..6 application threads on 1..3 nodes (L1 absent / unlimited / 1..3 entries) against 1..2 servers with 1..3 threads each, "
+              "under ThreadSanitizer and ASan, histories with unique values checked for stale/foreign/torn reads and, for short ones, linearizability (WGL search). non-trivial = distinct world shapes",
               "ops_total", "worlds", min_evals=10000,
-              required_nonzero=("hits_through_l1_client", "misses", "rise_killed", "clears", "placement_checks"))
+              required_nonzero=("hits_through_l1_client", "misses", "rise_killed", "clears", "placement_checks", "histories_net_short", "histories_net_long", "histories_linearized", "overlapping_pairs"))
